@@ -22,7 +22,7 @@ ASSUMPTIONS = ["a scenario whose written citations are not all extracted at thei
                "many may be skipped",
                "opinion window for 'pin cite within the opinion' is read from eyecite.resolve.MAX_OPINION_PAGE_COUNT"]
 FLOORS = {"quick": {"scenarios_decided": 3000, "ref:short": 1500, "ref:supra": 1500, "ref:id": 1500,
-                    "colliding_scenarios": 500, "must_stay_unresolved_ids": 500, "exhaustive_small": 2588, "bare_short_forms": 300},
+                    "colliding_scenarios": 500, "must_stay_unresolved_ids": 500, "exhaustive_small": 2588, "bare_short_forms": 300, "id_range_pins": 300, "accented_names": 300},
           "thorough": {"scenarios_decided": 200000, "ref:short": 100000, "ref:supra": 100000, "ref:id": 100000,
                        "colliding_scenarios": 50000, "must_stay_unresolved_ids": 50000,
                        "exhaustive_small": 20956}}
@@ -45,11 +45,25 @@ def classify(v):
     return None
 
 
+ACCENT = {"A": "Á", "E": "É", "O": "Ö", "U": "Ü", "L": "Ł", "S": "Š", "Z": "Ž", "C": "Ç", "N": "Ñ"}
+
+
+def accent(rng, w):
+    """Party names are not ASCII-only in real opinions (Álvarez, Ünal, Peña)."""
+    r = rng.random()
+    if r < 0.12 and w[0] in ACCENT:
+        return ACCENT[w[0]] + w[1:]
+    if r < 0.2 and "n" in w[1:]:
+        i = w.index("n", 1)
+        return w[:i] + "ñ" + w[i + 1:]
+    return w
+
+
 def make_cases(rng, k, collide=None):
     used, cases = [], []
     for i in range(k):
-        P = gen.word(rng, used, 3); used.append(P)
-        D = gen.word(rng, used, 3); used.append(D)
+        P = accent(rng, gen.word(rng, used, 3)); used.append(P)
+        D = accent(rng, gen.word(rng, used, 3)); used.append(D)
         if cases and (collide if collide is not None else rng.random() < 0.4):
             rep, vol = cases[-1]["rep"], cases[-1]["vol"]
         else:
@@ -137,9 +151,17 @@ class Scenario:
             c = self.cases[self.last]
             if valid:
                 form = r.random()
-                if form < 0.7:
+                if form < 0.45:
                     pin = c["page"] + r.randint(0, self.maxp)
                     s = f"Id. at {pin}"
+                elif form < 0.7:
+                    # ranges and lists, incl. the abbreviated range '140-45'
+                    pin = c["page"] + r.randint(0, self.maxp - 10)
+                    hi = pin + r.randint(1, 9)
+                    short_hi = str(hi)[-2:] if (len(str(hi)) > 2 and str(hi)[:-2] == str(pin)[:-2] and int(str(hi)[-2:]) > int(str(pin)[-2:])) else str(hi)
+                    s = r.choice([f"Id. at {pin}-{hi}", f"Id. at {pin}-{short_hi}", f"Id., at {pin}, {hi}",
+                                  f"Id. at {pin} n.{r.randint(1, 9)}", f"Id. at {pin}-{hi}, {hi + 2}"])
+                    self.range_pins = getattr(self, "range_pins", 0) + 1
                 elif form < 0.85:
                     s = "Id."
                 else:
@@ -269,6 +291,8 @@ def judge(sc, rec, case):
         return
     rec.count("scenarios_decided")
     rec.count("bare_short_forms", getattr(sc, "bare", 0))
+    rec.count("id_range_pins", getattr(sc, "range_pins", 0))
+    rec.count("accented_names", sum(1 for c in cases for n in (c["P"], c["D"]) if not n.isascii()))
     if len({(c["rep"], c["vol"]) for c in cases if c["cited"]}) < sum(1 for c in cases if c["cited"]):
         rec.count("colliding_scenarios")
     if any(r[1] != "full" for r in refs):
